@@ -321,7 +321,8 @@ impl Gen {
                 public_key: self.blob().into(),
             }),
             36 => RData::RRSIG(RRSIG {
-                type_covered: self.u16(),
+                // mostly the type of an RRset that exists (a signature "covers" a type; code must not confuse the two)
+                type_covered: if self.rng.chance(2, 3) { *self.rng.pick(&TYPE_CODES) } else { self.u16() },
                 algorithm: self.u8(),
                 labels: self.u8(),
                 original_ttl: self.u32(),
@@ -371,12 +372,14 @@ impl Gen {
                 }
                 // a type code that is not one of the 41 supported ones
                 let code = loop {
-                    let c = match self.rng.below(3) {
+                    let c = match self.rng.below(4) {
                         0 => 65535,
                         1 => self.rng.range(258, 300) as u16,
+                        // around the codes that are question types only (251..255): legal, if odd, on a record
+                        2 => *self.rng.pick(&[0u16, 248, 249, 250, 251, 252, 253, 254, 255, 256]),
                         _ => self.u16(),
                     };
-                    if !TYPE_CODES.contains(&c) && !(251..=255).contains(&c) && c != 0 {
+                    if !TYPE_CODES.contains(&c) {
                         break c;
                     }
                 };
